@@ -77,7 +77,8 @@ func build() {
 	inRoot = map[string]string{}
 	for _, f := range []string{"a.css", "b.js", "index.html", "page.html", "my file.css", "dots..css", "noext", "sub/c.css", "sub/index.html", "sub/deep/d.js", "sub/deep/e.txt", "x.css.bak", "up..js",
 		"lib.js/index.html", "lib.js/inner.css", "style.css/readme.txt", "sub/chart.js/index.html", // directories named like files
-		"accesscss", "passwdjs", "style.scss", "worker.mjs", "sub/config.cjs", "x.js.njs", "page.xhtml", "notes.md"} { // names that only END in the letters of an extension
+		"accesscss", "passwdjs", "style.scss", "worker.mjs", "sub/config.cjs", "x.js.njs", "page.xhtml", "notes.md", // names that only END in the letters of an extension
+		"page.htm", "x.cs", "a.j", "b.s", "c.ss", "d.tx", "e.tml", "f.s|j", "sub/g.ht"} { // extensions that are PART of an allowed one, or of the list's text
 		inRoot[f] = "ROOTFILE<" + f + ">" + tag
 		write(filepath.Join(root, filepath.FromSlash(f)), inRoot[f])
 	}
@@ -283,7 +284,7 @@ func check(s setup, u *url.URL, rec *httptest.ResponseRecorder) string {
 
 var segGen = rapid.OneOf(
 	rapid.SampledFrom([]string{"..", "..", ".", "", "%2e%2e", "%2E%2E", "%2f", "%5c", "\\", "..\\", "\x00", "...", "a.css", "b.js", "sub", "deep", "c.css", "d.js",
-		"index.html", "my file.css", "my%20file.css", "dots..css", "a.css.", "a.css/", "lib.js", "lib.js/", "style.css", "chart.js/", "inner.css", "accesscss", "passwdjs", "style.scss", "worker.mjs", "config.cjs", "x.js.njs", "page.xhtml", "notes.md", "secret.txt", "sibling", "leak.js", "root", "parent", "rootx.css", "noext", "e.txt", "x.css.bak", "up..js", "..css", "..%2f..%2fsecret.txt%00.css"}),
+		"index.html", "my file.css", "my%20file.css", "dots..css", "a.css.", "a.css/", "lib.js", "lib.js/", "style.css", "chart.js/", "inner.css", "accesscss", "passwdjs", "style.scss", "worker.mjs", "config.cjs", "x.js.njs", "page.xhtml", "notes.md", "page.htm", "x.cs", "a.j", "b.s", "c.ss", "d.tx", "e.tml", "f.s|j", "g.ht", "secret.txt", "sibling", "leak.js", "root", "parent", "rootx.css", "noext", "e.txt", "x.css.bak", "up..js", "..css", "..%2f..%2fsecret.txt%00.css"}),
 	rapid.StringMatching(`[a-c./\\%]{1,4}`),
 )
 
@@ -411,3 +412,35 @@ func prop(t *rapid.T) {
 }
 
 func TestProp(t *testing.T) { rapid.Check(t, prop) }
+
+// propStaticFileCurrent: StaticFile returns the bytes of the configured file - the file as it is when it is requested
+// (a file that is rewritten, or a route that is registered again for another file before it was ever requested, is
+// served with its current content; the old bytes are not "bytes of the configured file" any more).
+func propStaticFileCurrent(t *rapid.T) {
+	ev.Case()
+	dir := filepath.Join(sandbox, "mutable")
+	_ = os.MkdirAll(dir, 0o755)
+	file := filepath.Join(dir, "page.css")
+	var opts []func(*rux.Router)
+	if rapid.Bool().Draw(t, "caching") {
+		opts = append(opts, rux.CachingWithNum(2))
+	}
+	r := rux.New(opts...)
+	r.StaticFile("/m/page.css", file)
+	for i, n := 0, rapid.IntRange(2, 4).Draw(t, "versions"); i < n; i++ {
+		content := fmt.Sprintf("MUTABLE version %d %s", i, strings.Repeat("x", rapid.IntRange(0, 40).Draw(t, "pad")))
+		write(file, content)
+		for k, m := 0, rapid.IntRange(1, 2).Draw(t, "requests"); k < m; k++ {
+			rec := httptest.NewRecorder()
+			r.ServeHTTP(rec, httptest.NewRequest("GET", "/m/page.css", nil))
+			ev.Eval()
+			if rec.Code != 200 || rec.Body.String() != content {
+				t.Fatalf("StaticFile answered %d %q, the configured file holds %q now (version %d, request %d)", rec.Code, rec.Body.String(), content, i, k)
+			}
+		}
+	}
+	ev.Class("StaticFile:file-rewritten-between-requests")
+	ev.NonTrivial("mutable", func() string { return "the configured file is rewritten between requests" })
+}
+
+func TestPropStaticFileCurrent(t *testing.T) { rapid.Check(t, propStaticFileCurrent) }
